@@ -221,7 +221,10 @@ impl<T: ContentType> State<T> {
                         header.properties,
                     )))
                 } else {
-                    let buf = Vec::with_capacity(header.body_size as usize);
+                    // body_size is whatever the server claims; never allocate on its say-so
+                    // beyond a modest first chunk (the vector grows as body frames arrive).
+                    const MAX_PREALLOC: u64 = 1 << 20;
+                    let buf = Vec::with_capacity(header.body_size.min(MAX_PREALLOC) as usize);
                     Ok(Content::NeedMore(State::Body(start, header, buf)))
                 }
             }
